@@ -17,6 +17,8 @@
 //                       valid prefixes; oracle is a strict three-valued reference recogniser (VALID /
 //                       INVALID / UNSPECIFIED)
 //
+//   R  bad qualities  : q = 1.001 .. 1.100 in thousandths and 16 further out-of-range spellings x 3 carriers x 3 tails:
+//                       must be refused with 415
 //   S  substitutions  : every byte value at every position of ~45 canonical texts (each type, subtype, suffix name)
 //
 // Every text is evaluated through fromString, through fromRaw on an exact-size heap buffer without a
@@ -725,6 +727,42 @@ static void mutated(const std::string& text, vr::Ctx& ctx)
     ctx.nontrivial(vr::hash_str(text, 11));
 }
 
+// ---- R: qualities outside 0..1 (just outside as well as far outside) must be refused with 415 ------------------------
+static std::vector<std::string> gBadQ;
+static void init_badq()
+{
+    char b[32];
+    for (int t = 1001; t <= 1100; ++t) // 1.001 .. 1.100: thousandths just above 1
+    {
+        snprintf(b, sizeof b, "%d.%03d", t / 1000, t % 1000);
+        gBadQ.push_back(b);
+    }
+    for (const char* x : { "1.0001", "1.00001", "1.5", "2", "2.0", "9", "10", "100", "1e1", "1e2", "1E9", "-0.001", "-0.5", "-1", "-1e-3", "1.0000000001" })
+        gBadQ.push_back(x);
+}
+static void caseR(uint64_t i, vr::Ctx& ctx)
+{
+    static const char* kCar[] = { "text/html", "application/json", "*/*" };
+    static const char* kTail[] = { "", "; charset=utf-8", " " };
+    const std::string& q = gBadQ[i / 9];
+    std::string text     = std::string(kCar[i % 3]) + "; q=" + q + kTail[i / 3 % 3];
+    Want w;
+    w.specified = false;
+    ctx.note("out-of-range quality input=" + vr::show(text));
+    Seen a = via_string(text);
+    Seen b = via_exact(text);
+    ctx.count("evaluations", 1);
+    ctx.count("transitions", 2);
+    if (a.kind == 0 || b.kind == 0)
+        ctx.violation("c18:accepted:quality-out-of-range", djson(text, a.kind == 0 ? a : b));
+    else if (a.kind >= 2)
+        ctx.violation(std::string("c18:rejected-with-wrong-error:") + (a.kind == 2 ? "other-http-code" : a.kind == 3 ? a.extype : "non-std"), djson(text, a));
+    else if (b.kind >= 2)
+        ctx.violation(std::string("c18:rejected-with-wrong-error:") + (b.kind == 2 ? "other-http-code" : b.kind == 3 ? b.extype : "non-std"), djson(text, b));
+    ctx.outcome("out-of-range quality " + a.cls());
+    ctx.nontrivial(vr::hash_str(text, 17));
+}
+
 // ---- S: single-byte substitutions of canonical texts (every byte value at every position) ---------------------------
 static std::vector<std::string> gSTexts;
 static std::vector<std::pair<int, int>> gSIndex; // (text, position), one case each = 255 inputs
@@ -814,9 +852,11 @@ int main(int argc, char** argv)
     bB     = (nB + kBlock - 1) / kBlock;
     bM     = (nMfull + kBlock - 1) / kBlock + (uint64_t)kNMPrefix * ((nMpre + kBlock - 1) / kBlock);
     init_subst();
-    static uint64_t bS;
+    init_badq();
+    static uint64_t bS, bR;
     bS             = gSIndex.size();
-    uint64_t total = bP + bQ + bB + bM + bS;
+    bR             = gBadQ.size() * 9;
+    uint64_t total = bP + bQ + bB + bM + bS + bR;
     return vr::run(opt, total, [](uint64_t idx, vr::Ctx& ctx) {
         ctx.count("executions", 1);
         auto block = [&](uint64_t blk, uint64_t n, void (*fn)(uint64_t, vr::Ctx&)) {
@@ -831,8 +871,10 @@ int main(int argc, char** argv)
             block(idx - bP - bQ, nB, caseB);
         else if (idx < bP + bQ + bB + bM)
             caseM(idx - bP - bQ - bB, ctx);
-        else
+        else if (idx < bP + bQ + bB + bM + bS)
             caseS(idx - bP - bQ - bB - bM, ctx);
+        else
+            caseR(idx - bP - bQ - bB - bM - bS, ctx);
         if (idx % 97 == 0)
             ctx.sample("{\"case\":" + std::to_string(idx) + ",\"last_input\":" + vr::jstr(ctx.shm->slots[ctx.worker].note) + "}");
     });
